@@ -74,6 +74,11 @@ def make_target(seed, feats):
                      "line": "enable secret 5 $1$%s$%s" % (S._rand(rng, S._H64, 9, 14), S._rand(rng, S._H64, 22, 22)),
                      "parts": [], "lead": "", "trail": "", "eol": "\n"})
     if rng.random() < 0.5:
+        # reserved words one of which is the beginning of another (clock / clock-period), with listed words in both parts
+        opts["words"] = sorted(set(opts["words"]) | set(rng.sample(["loc", "eri", "ber", "ros", "lock", "perio"], 3)))
+        text.append({"kind": "plain", "lead": " ", "trail": "", "eol": "\n", "seps": [" "] * 6,
+                     "toks": [[t, "benign"] for t in ("clock-period", "kerberos-sec", "clock", "kerberos", "\"clock-period\",", "(kerberos-sec)")]})
+    if rng.random() < 0.5:
         # a damaged md5-crypt string: empty salt field and one separator too many
         text.append({"kind": "secret", "form": "cisco-enable-secret-5", "mode": "replace", "cls": "md5",
                      "line": "enable secret 5 $1$$%s$%s" % (S._rand(rng, S._H64, 1, 6), S._rand(rng, S._H64, 8, 22)),
@@ -226,8 +231,28 @@ def _inproc(ctx, case, nc, pristine):
             fb = f.read()
         with open(stale, "rb") as f:
             sb = f.read()
-    ctx.count("output_comparisons")
-    ctx.count("stale_output_path_comparisons")
+        # ... or something very close to the right answer: the same text with the other line terminators
+        twin = os.path.join(d, "twin.cfg")
+        with open(twin, "wb") as f:
+            f.write(fb.replace(b"\r\n", b"\n") if b"\r\n" in fb else fb.replace(b"\n", b"\r\n"))
+        M.build_anonymizer(nc, opts, feats).anonymize_file(ip, twin)
+        nc.af.anonymize_files(ip, os.path.join(d, "fresh2.cfg"), "pwd" in feats, False, salt=opts["salt"] or "s0")
+        twin2 = os.path.join(d, "twin2.cfg")
+        with open(os.path.join(d, "fresh2.cfg"), "rb") as f:
+            f2 = f.read()
+        with open(twin2, "wb") as f:
+            f.write(f2.replace(b"\r\n", b"\n") if b"\r\n" in f2 else f2.replace(b"\n", b"\r\n"))
+        nc.af.anonymize_files(ip, twin2, "pwd" in feats, False, salt=opts["salt"] or "s0")
+        with open(twin, "rb") as f:
+            tb = f.read()
+        with open(twin2, "rb") as f:
+            tb2 = f.read()
+    ctx.count("output_comparisons", 3)
+    ctx.count("stale_output_path_comparisons", 3)
+    if tb != fb or tb2 != f2:
+        ctx.violation(case, "depends-on-leftover-output-file:line-ending-twin", "an output path that already held the same text with the other line "
+                      "terminators keeps them (%s): %d vs %d bytes" % ("anonymize_file" if tb != fb else "anonymize_files", len(tb if tb != fb else tb2), len(fb if tb != fb else f2)))
+        return
     if fb != sb:
         ctx.violation(case, "depends-on-leftover-output-file", "writing over an existing (longer) output file gives %d bytes, a fresh path %d: %s"
                       % (len(sb), len(fb), first_diff(fb.decode("utf-8", "replace"), sb.decode("utf-8", "replace"))))
